@@ -13,7 +13,7 @@ claimed = {
  "C06": ("fault_enumeration", "3", "seeded simulation of the pass-through forwarder; terminal events of every kind placed at arbitrary scheduling points; relay order/content, bounded joint termination under a fair schedule, leaked-task oracle"),
  "C09": ("exploration", "3", "seeded simulation of 2-3 proxy instances over a simulated memberlist fabric and intra-proxy links (announcement order/delay/duplication, instance leave and rejoin under the same name); convergence oracle at quiescence and delivery probes against each instance's own tables"),
  "C10": ("fault_enumeration", "3", "seeded simulation of the real mux pool (yamux, providers, manager, sessions) over a simulated network with connection/session faults and shutdown at arbitrary points; limit, self-healing, permit accounting and closed-after-shutdown oracles"),
- "C11": ("exploration", "3", "seeded simulation with real gRPC over the mux pool; RPC outcome and serving session vs the registered live set at quiescent points"),
+ "C11": ("exploration", "3", "seeded simulation with real gRPC over the mux pool; RPC outcome and serving session vs the registered live set at quiescent points, including after 31 virtual minutes without calls (gRPC channel idle timeout)"),
  "C19": ("fault_enumeration", "3", "seeded TLS handshakes between the proxy's real TLS configurations and a harness peer with generated credentials, under simulated clock jumps and connection cuts/corruption; admission vs independent x509 verification at the simulated time"),
  "C20": ("exploration", "3", "seeded simulation of the stream handler (pass-through, LCM and routing mode) with hostile stream-open metadata, concurrently, followed by well-formed streams; served-or-rejected, wedge (task waiting on a lock forever), counter-bookkeeping and crash oracles"),
  "C07": ("exploration", "3", "configuration swarm over a really assembled and running ClusterConnection in LCM mode between two fake clusters on the simulated network; DescribeCluster override and forwarded stream metadata vs independent arithmetic and Temporal's hash partitioning"),
